@@ -490,12 +490,41 @@ def c01n_jobs(tier, seed):
     return jobs
 
 
+def c18q_run(tid, wcfg, cfgline, seed):
+    """the application handler queues UPDATE / NOTIFICATION requests (BaseHandler.inter_mq); the agent sends them when a
+    KEEPALIVE arrives.  Every frame written must show up in the sent counters (C18), on the tracked connection."""
+    rnd = random.Random(seed)
+    w = World(wcfg)
+    rec = R.Recorder(w, tid, cfgline)
+    c = first_session(w, rec)
+    rec.step({'k': 'msg', 'c': c, 'm': 'OPEN', 'h': 90}, c)
+    rec.step({'k': 'msg', 'c': c, 'm': 'KA'}, c)
+    for r in range(rnd.randint(2, 5)):
+        if rec.pre['st'] != 'ESTABLISHED' or rec.pre['trcs'] != 'open':
+            break
+        n = rnd.choice([1, 1, 2, 3, 5])
+        items = [{'type': 'update', 'msg': {'attr': {1: 0, 2: [(2, [65001])], 3: '10.0.0.1'}, 'nlri': ['10.%d.%d.0/24' % (r, i)]}} for i in range(n)]
+        if rnd.random() < 0.15:
+            items.append({'type': 'notification', 'msg': {'error': 6, 'sub_error': 2, 'data': b''}})
+        rec.step({'k': 'enqueue', 'c': 0, 'items': items, 'cls': 'ENQUEUE', 'm': 'q%d' % len(items)}, 0)
+        if rnd.random() < 0.3:
+            rec.step({'k': 'rest', 'c': 0, 'rule': 'send/update', 'method': 'POST', 'cred': 'good',
+                      'body': {'attr': {'1': 0, '2': [[2, [65001]]], '3': '10.0.0.1'}, 'nlri': ['10.99.%d.0/24' % r]}, 'm': 'announce'}, 0)
+        rec.step({'k': 'msg', 'c': c, 'm': 'KA'}, c)
+    return rec.lines
+
+
+def c18q_jobs(tier, seed):
+    wcfg = dict(tick=10.0, crt=20, idle=20, hold=90, las=65001, ras=65002)
+    return [('c18q', wcfg, seed * 1000003 + i) for i in range(60 if tier == 'quick' else 2000)]
+
+
 # ----------------------------------------------------------------------------- C16
 RULE_CLASS = {'state': 'read', 'statistic': 'read', 'version/send': 'read', 'version/received': 'read', 'version/bogus': 'read',
               'manual-start': 'ctl', 'manual-stop': 'ctl', 'send/update': 'send', 'send/route-refresh': 'send', 'send/bin_update': 'send',
               'json_to_bin': 'gated', 'adj-rib-in': 'gated', 'adj-rib-out': 'gated'}
 C16_STATES = ['PREBOOT', 'CONNECT', 'OPENSENT', 'OPENCONFIRM', 'ESTABLISHED', 'IDLE_CLOSING', 'IDLE_HOLD', 'STOPPED']
-METHODS = ['GET', 'POST', 'PUT', 'DELETE', 'HEAD']
+METHODS = ['GET', 'POST', 'PUT', 'DELETE', 'HEAD', 'OPTIONS', 'PATCH']
 CREDS = ['none', 'baduser', 'badpass', 'good']
 # further shapes of invalid credentials (issued for one body per rule, with the methods the rule has)
 CREDS_MORE = ['baduser-empty', 'gooduser-empty', 'emptyuser', 'empty-both', 'swapped', 'case', 'garbage', 'nocolon']
@@ -577,7 +606,7 @@ def c16_run(tid, wcfg, cfgline, state, rule, method, cred, bname, body, rq):
     c16_reach(w, rec, state)
     pre = rec.pre['o']['stat']
     rq = dict(rq, ibgp=wcfg['las'] == wcfg['ras'])
-    o = rec.step({'k': 'rest', 'c': 0, 'rule': rule, 'method': method, 'cred': cred, 'body': body if method in ('POST', 'PUT') else None, 'm': bname}, 0,
+    o = rec.step({'k': 'rest', 'c': 0, 'rule': rule, 'method': method, 'cred': cred, 'body': body if method in ('POST', 'PUT', 'OPTIONS', 'PATCH', 'DELETE') else None, 'm': bname}, 0,
                  extra={'rq': rq})
     rec.lines[-1]['statsame'] = (pre == o['stat'])
     # what the request left behind must not break the next ordinary events
@@ -634,6 +663,9 @@ def run_jobs(args):
                 _, cc, hist, final = job
                 wcfg = dict(tick=10.0, crt=20, idle=20, **cc)
                 lines = c05_run(tid, wcfg, cfgline_fn(wcfg), hist, final)
+            elif job[0] == 'c18q':
+                _, wcfg, sd = job
+                lines = c18q_run(tid, wcfg, cfgline_fn(wcfg), sd)
             elif job[0] == 'c01n':
                 _, wcfg, state, code, sub, xd = job
                 lines = c01n_run(tid, wcfg, cfgline_fn(wcfg), state, code, sub, xd)
